@@ -8,6 +8,7 @@ import (
 	"fmt"
 	"sort"
 	"strings"
+	"testing/synctest"
 	"time"
 
 	"github.com/dgraph-io/badger/v4/pb"
@@ -257,5 +258,69 @@ func init() {
 			}
 			return "returned " + strings.Join(st.notes, ";"), "", ""
 		},
+	})
+}
+
+// c38sub (E-enum, inside a bubble): a subscriber whose callback is slow lets batches pile up (up to
+// the publisher blocking on the subscriber's full channel); the callback then fails.  Subscribe
+// must return, later commits must go through and Close must return.  "Returned" is decided by
+// quiescence of the bubble (synctest.Wait), not by a wall-clock timeout.
+func init() {
+	registerEnum("c38sub", func(e *enumCtx) {
+		for _, backlog := range []int{3, 1005, 1500} { // beyond about 2000 queued batches commits block by design (back-pressure)
+			backlog := backlog
+			e.do(fmt.Sprintf("backlog%d", backlog), func() (c, d string) {
+				inBubble(e.t, func() {
+					o := smallOpts("")
+					o.InMemory, o.Dir, o.ValueDir = true, "", ""
+					o.NumLevelZeroTables, o.NumLevelZeroTablesStall = 1<<20, 1<<21
+					db := mustOpen(o)
+					release := make(chan struct{})
+					subDone, closeDone := false, false
+					var subErr error
+					first := true
+					go func() {
+						subErr = db.Subscribe(context.Background(), func(kv *KVList) error {
+							if first {
+								first = false
+								<-release
+								return fmt.Errorf("callback failed")
+							}
+							return nil
+						}, []pb.Match{{Prefix: []byte("k")}})
+						subDone = true
+					}()
+					synctest.Wait()
+					for i := 0; i < backlog; i++ {
+						if err := db.Update(func(txn *Txn) error { return txn.Set([]byte(fmt.Sprintf("k%05d", i)), []byte("v")) }); err != nil {
+							c, d = "unexpected-error", fmt.Sprintf("commit %d with a slow subscriber: %v", i, err)
+							bubbleLeakOK = true
+							return
+						}
+					}
+					synctest.Wait()
+					close(release)
+					synctest.Wait()
+					if !subDone {
+						c, d = "deadlock/Subscribe", fmt.Sprintf("with %d batches queued for a subscriber whose callback then failed, Subscribe never returned (all goroutines of the process are blocked)", backlog)
+						bubbleLeakOK = true
+						return
+					}
+					if subErr == nil || !strings.Contains(subErr.Error(), "callback failed") {
+						c, d = "unexpected-error", fmt.Sprintf("Subscribe returned %v", subErr)
+					}
+					if err := db.Update(func(txn *Txn) error { return txn.Set([]byte("k-after"), []byte("v")) }); err != nil && c == "" {
+						c, d = "unexpected-error", "commit after the subscriber ended: "+err.Error()
+					}
+					go func() { _ = db.Close(); closeDone = true }()
+					synctest.Wait()
+					if !closeDone && c == "" {
+						c, d = "deadlock/Close", "Close did not return after the subscriber ended"
+						bubbleLeakOK = true
+					}
+				})
+				return
+			})
+		}
 	})
 }
